@@ -67,6 +67,39 @@ func init() {
 		b, _ := args[0].([]value)
 		return append(b, out...)
 	}
+	// strconv decimal formatting of a symbolic integer: the same exact rendering as %d (the
+	// real strconv loops over digit pairs and explodes on a symbolic operand). Concrete
+	// operands, other bases and paths that did not opt in run the real body.
+	symDec := func(fr *frame, iv value, base value) ([]value, bool) {
+		v, isSym := iv.(sym)
+		b, _ := base.(int)
+		if !isSym || b != 10 || !fr.m.summarize[sumSymFmt] {
+			return nil, false
+		}
+		fr.m.sumUsed["strconv.AppendUint/FormatUint/AppendInt/FormatInt/Itoa with a symbolic operand -> exact decimal rendering (as %d)"] = true
+		return c15Decimal(fr, nil, v), true
+	}
+	externals["strconv.AppendUint"] = func(fr *frame, args []value) value {
+		if out, ok := symDec(fr, args[1], args[2]); ok {
+			b, _ := args[0].([]value)
+			return append(b, out...)
+		}
+		return c15RunBody(fr, args)
+	}
+	externals["strconv.AppendInt"] = externals["strconv.AppendUint"]
+	externals["strconv.FormatUint"] = func(fr *frame, args []value) value {
+		if out, ok := symDec(fr, args[0], args[1]); ok {
+			return normStr(symstr(out))
+		}
+		return c15RunBody(fr, args)
+	}
+	externals["strconv.FormatInt"] = externals["strconv.FormatUint"]
+	externals["strconv.Itoa"] = func(fr *frame, args []value) value {
+		if out, ok := symDec(fr, args[0], 10); ok {
+			return normStr(symstr(out))
+		}
+		return c15RunBody(fr, args)
+	}
 	externals["fmt.Fprintf"] = func(fr *frame, args []value) value {
 		if !c15FmtActive(fr, args[1], args[2]) {
 			return oldFprintf(fr, args)
